@@ -380,6 +380,8 @@ def ite(c, a, b):
     if isinstance(a, VRef) and isinstance(b, VRef) and a.oid == b.oid:
         return a
     if isinstance(a, VAbs) and isinstance(b, VAbs):
+        if type(a) is type(b) and hasattr(a, "ite_with"):
+            return a.ite_with(c, b)
         if hasattr(a, "key") and hasattr(b, "key") and type(a) is type(b) and a.key() == b.key() and not a.key()[1]:
             return a
         return VAbsIte(c, a, b)
